@@ -367,10 +367,7 @@ def input_specs_for_export(prog, double=False):
         npdt = NP_DT[dt]
         if double and dt == F:
             npdt = np.float64
-        if static(shape):
-            out.append(jax.ShapeDtypeStruct(tuple(shape), npdt))
-        else:
-            out.append((tuple(shape), npdt))
+        out.append(jax.ShapeDtypeStruct(tuple(shape), npdt))
     return out
 
 
